@@ -368,3 +368,131 @@ func LoadReplay(path string, out any) error {
 
 	return json.Unmarshal(w.Witness, out)
 }
+
+// ---- sharding support: a worker process saves its counts, the parent merges ----
+
+type partial struct {
+	Evals      int64
+	Distinct   [][16]byte
+	Samples    []string // JSON
+	CovInts    map[string]int64
+	CovOther   map[string]string // JSON
+	Viol       []partialViol
+	Capped     []string
+	Exhaustive bool
+}
+
+type partialViol struct {
+	Cell, Message, Witness string
+	Count, Size            int
+}
+
+// SavePartial writes this run's counts to path (worker side) and exits 0.
+func (r *R) SavePartial(path string) {
+	p := partial{Evals: r.evals, CovInts: map[string]int64{}, CovOther: map[string]string{}, Capped: r.capped, Exhaustive: r.exhaustive}
+
+	for k := range r.distinct {
+		p.Distinct = append(p.Distinct, k)
+	}
+
+	for _, s := range r.samples {
+		b, _ := json.Marshal(s)
+		p.Samples = append(p.Samples, string(b))
+	}
+
+	for k, v := range r.cov {
+		if n, ok := v.(int64); ok {
+			p.CovInts[k] = n
+		} else {
+			b, _ := json.Marshal(v)
+			p.CovOther[k] = string(b)
+		}
+	}
+
+	for _, v := range r.viol {
+		b, _ := json.Marshal(v.Witness)
+		p.Viol = append(p.Viol, partialViol{v.Cell, v.Message, string(b), v.Count, v.size})
+	}
+
+	b, _ := json.Marshal(p)
+	if err := os.WriteFile(path, b, 0o644); err != nil {
+		Fatal("cannot write partial result: %v", err)
+	}
+
+	os.Exit(0)
+}
+
+// MergePartial folds a worker's counts into this run (parent side).
+func (r *R) MergePartial(path string) {
+	b, err := os.ReadFile(path)
+	if err != nil {
+		Fatal("worker result missing: %v", err)
+	}
+
+	var p partial
+	if err := json.Unmarshal(b, &p); err != nil {
+		Fatal("worker result unreadable: %v", err)
+	}
+
+	r.mu.Lock()
+	defer r.mu.Unlock()
+
+	r.evals += p.Evals
+
+	for _, k := range p.Distinct {
+		r.distinct[k] = struct{}{}
+	}
+
+	for _, s := range p.Samples {
+		if len(r.samples) < r.maxSamples {
+			var v any
+
+			_ = json.Unmarshal([]byte(s), &v)
+			r.samples = append(r.samples, v)
+		}
+	}
+
+	for k, n := range p.CovInts {
+		cur, _ := r.cov[k].(int64)
+		r.cov[k] = cur + n
+	}
+
+	for k, s := range p.CovOther {
+		var v any
+
+		_ = json.Unmarshal([]byte(s), &v)
+		r.cov[k] = v
+	}
+
+	for _, pv := range p.Viol {
+		var w any
+
+		_ = json.Unmarshal([]byte(pv.Witness), &w)
+
+		v := r.viol[pv.Cell]
+		if v == nil {
+			r.viol[pv.Cell] = &Violation{Cell: pv.Cell, Witness: w, Message: pv.Message, Count: pv.Count, size: pv.Size}
+		} else {
+			v.Count += pv.Count
+			if pv.Size < v.size {
+				v.size, v.Witness, v.Message = pv.Size, w, pv.Message
+			}
+		}
+	}
+
+	if !p.Exhaustive {
+		r.exhaustive = false
+	}
+
+	r.capped = append(r.capped, p.Capped...)
+}
+
+// IntCov reads an integer coverage key.
+func (r *R) IntCov(k string) int64 {
+	r.mu.Lock()
+	defer r.mu.Unlock()
+
+	n, _ := r.cov[k].(int64)
+
+	return n
+}
